@@ -12,7 +12,7 @@ ROOT = os.path.dirname(os.path.abspath(__file__))
 out_root = os.path.join(ROOT, "seeded")
 os.makedirs(out_root, exist_ok=True)
 rows = []
-for d in sorted(glob.glob("/tmp/seed_C*/change*")) + sorted(glob.glob("/tmp/seed2_C*/change*")) + sorted(glob.glob("/tmp/seed3_C*/change*")) + sorted(glob.glob("/tmp/seed4_C*/change*")):
+for d in sorted(glob.glob("/tmp/seed_C*/change*")) + sorted(glob.glob("/tmp/seed2_C*/change*")) + sorted(glob.glob("/tmp/seed3_C*/change*")) + sorted(glob.glob("/tmp/seed4_C*/change*")) + sorted(glob.glob("/tmp/seed5_C*/change*")):
     cj, dj, mj = (os.path.join(d, f) for f in ("confirm.json", "detection.json", "meta.json"))
     if not (os.path.exists(cj) and os.path.exists(mj)):
         continue
@@ -21,8 +21,8 @@ for d in sorted(glob.glob("/tmp/seed_C*/change*")) + sorted(glob.glob("/tmp/seed
     det = json.load(open(dj)) if os.path.exists(dj) else None
     first = os.path.join(d, "detection_first.json")
     det_first = json.load(open(first)) if os.path.exists(first) else None
-    prop = meta.get("property") or os.path.basename(os.path.dirname(d)).replace("seed4_", "").replace("seed3_", "").replace("seed2_", "").replace("seed_", "")
-    rnd = "r2-" if "/seed2_" in d else ("r3-" if "/seed3_" in d else ("r4-" if "/seed4_" in d else ""))
+    prop = meta.get("property") or os.path.basename(os.path.dirname(d)).replace("seed5_", "").replace("seed4_", "").replace("seed3_", "").replace("seed2_", "").replace("seed_", "")
+    rnd = "r2-" if "/seed2_" in d else ("r3-" if "/seed3_" in d else ("r4-" if "/seed4_" in d else ("r5-" if "/seed5_" in d else "")))
     sid = f"{prop}-{rnd}{os.path.basename(d).replace('change', '')}"
     if not conf.get("confirmed"):
         rows.append((sid, prop, "NOT CONFIRMED", "", meta.get("summary", "")))
